@@ -401,6 +401,50 @@ static std::string do_exec(int eslot, Context * ctx)
   return out;
 }
 
+/* statement at a time with the interactive parser, as the documented embedding pattern (and the CLI) do it:
+ * parseStatement, execute the chain, on ParseError clear() the parser, on RuntimeError purge working memory */
+static std::string do_run_interactive(Context& ctx, const std::string& text, bool cleanup_on_error)
+{
+  StringReader rd(text);
+  Parser * p = Parser::createInteractiveParser(ctx, rd);
+  std::string out;
+  int executed = 0;
+  try
+  {
+    for (;;)
+    {
+      Statement * s = nullptr;
+      try { s = p->parseStatement(); }
+      catch (ParseError& pe)
+      {
+        if (pe.no == EXC_PARSE_EOF) break;
+        out = perr_json(pe);
+        p->clear();
+        break;
+      }
+      if (!s) { if (p->state() == Parser::Aborted) break; continue; }
+      const Statement * r = s;
+      try { while (r) r = r->execute(ctx); }
+      catch (RuntimeError& re)
+      {
+        out = rerr_json(re);
+        if (cleanup_on_error) ctx.onRuntimeError(); else ctx.purgeWorkingMemory();
+        delete s;
+        break;
+      }
+      ++executed;
+      if (ctx.returnCondition()) ctx.returnCondition(false);
+      delete s;
+    }
+  }
+  catch (std::exception& e) { out = foreign_json(e.what(), typeid(e).name()); }
+  catch (...) { out = foreign_json("", "unknown"); }
+  delete p;
+  if (out.empty()) out = "{\"r\":\"ok\"}";
+  out.insert(out.size() - 1, ",\"executed\":" + std::to_string(executed));
+  return out;
+}
+
 /* parse + run through the C API */
 static std::string do_run_capi(Context& ctx, const std::string& text, bool withpos)
 {
@@ -697,6 +741,8 @@ static std::string run_op(const std::vector<std::string>& a)
     std::string text = hexdec(a[3]);
     if (a[2] == "capi") return do_run_capi(*c, text, false);
     if (a[2] == "capipos") return do_run_capi(*c, text, true);
+    if (a[2] == "istmt") return do_run_interactive(*c, text, false);
+    if (a[2] == "istmt2") return do_run_interactive(*c, text, true);
     std::string rs = "s";
     if (a[2].size() > 4 && a[2].compare(0, 4, "cpp:") == 0) rs = a[2].substr(4);
     return do_run_cpp(*c, text, rs, false, 0);
